@@ -52,7 +52,7 @@ GRID_RULE = (
     "complete grid: haystack length 0..=L x placement (guard-right, guard-left, exact heap, arena offsets mod 64) x "
     "position of the first/last needle byte (every index, and absent) x filler variant x needle set (incl. 0x00/0x80/"
     "0xFF, duplicates, one-bit-apart), for every available implementation (top-level dispatch, arch::all SWAR, SSE2, "
-    "AVX2; slice and raw forms), plus raw start>=end forms and multi-page haystacks; forced-CPU stages drive the real "
+    "AVX2; slice and raw forms), plus raw start>=end forms and multi-page haystacks (4 KiB..64 KiB, thorough ..1 MiB; random positions and the match at each of 1100 consecutive positions of an 8229-byte haystack); forced-CPU stages drive the real "
     "dispatcher into its SSE2-only and fallback branches; Miri stages run a boundary-focused sample of the same "
     "generator on x86_64 (SSE2 / +avx2), aarch64 (NEON), s390x (big-endian) and i686. Non-trivial = haystack "
     "non-empty." + distinct_note())
@@ -103,14 +103,16 @@ SUB_RULE = (
     "(1) exhaustive: every needle over {a,b} up to length n x every haystack over {a,b} up to length h (quick 5x12, "
     "thorough 6x14), the same strings embedded at several offsets of 41..100-byte backgrounds, and {a,b,c} strings; "
     "(2) structured needle families (empty, 1 byte, a^k, a^k b, b a^k, u^k / u^k v / v u^k for |u|<=9, Fibonacci, "
-    "Thue-Morse, bytes equal mod 64, two rare bytes at chosen indices incl. 254 and beyond, random over 2-4 letters "
+    "Thue-Morse, bytes equal mod 64, two rare bytes at chosen indices incl. 254 and beyond, 257..300-byte needles whose "
+    "rarest byte lies past offset 255, carry-chain runs, high-bit text, random over 2-4 letters "
     "and all bytes) at every threshold length (2..300, thorough ..4096) x haystack lengths around 16, 64 and the "
     "vector searchers' minimum x 7 needle-derived backgrounds (near matches, x.needle[1..] blocks, needle-minus-last "
     "blocks, windows equal on the last 32 bytes, shuffled needle bytes, broken periods) x planted occurrence at "
     "boundary offsets (every offset for short haystacks); (3) seeded random pairs with the needle cut out of the "
     "haystack; (4) prefilter-history haystacks; (5) long haystacks (4095/4096/4097/8197/65541 bytes; thorough twelve sizes "
     "up to 1 MiB) x every needle family up to 300 bytes x {absent-byte, near-miss, needle-factor, plain-text} backgrounds "
-    "with no / one / two planted occurrences. Entry points: one-shot, Finder, FinderBuilder with Prefilter::None / "
+    "with no / one / two planted occurrences, plus four needles planted at every offset of a 600-byte window inside an "
+    "8229-byte haystack. Entry points: one-shot, Finder, FinderBuilder with Prefilter::None / "
     "Auto. Non-trivial = both slices non-empty." + distinct_note())
 
 
